@@ -257,6 +257,7 @@ func runExprCase(wt *watch, c *ExprCase, idx int, style int) Event {
 		return path + "." + p
 	}
 	leafPaths := []string{}
+	namePaths := []string{} // complex type declarations: hovered on their name
 	walk = func(e *AExpr, path string) {
 		x := ext[path]
 		switch e.K {
@@ -279,10 +280,13 @@ func runExprCase(wt *watch, c *ExprCase, idx int, style int) Event {
 				}
 			}
 			stepExt[path] = se
-		case "lit", "kw", "type":
+		case "lit", "kw", "type", "tprim", "tbad":
 			leafPaths = append(leafPaths, path)
 		case "call":
 			nameExt[path] = []int{x.Name[0], x.Name[1]}
+		case "tcoll", "tobj", "ttup", "topt":
+			nameExt[path] = []int{x.Name[0], x.Name[1]}
+			namePaths = append(namePaths, path)
 		}
 		for i, c := range e.Es {
 			if c.K == "text" {
@@ -309,9 +313,13 @@ func runExprCase(wt *watch, c *ExprCase, idx int, style int) Event {
 	// ---- hover (C12) and go-to-definition (C11) at every leaf
 	hovers := [][]interface{}{}
 	lookups := [][]interface{}{}
-	for _, lp := range leafPaths {
+	sort.Strings(namePaths)
+	for _, lp := range append(append([]string{}, leafPaths...), namePaths...) {
 		x := ext[lp]
 		off := (x.Full[0] + x.Full[1]) / 2
+		if n, ok := nameExt[lp]; ok && x.Kind != "call" {
+			off = (n[0] + n[1]) / 2
+		}
 		pos := PosAt(src, off)
 		ho := env.Run(wt, Q{Kind: "hover", Path: "p1", File: "a.tf", Pos: pos})
 		hr := []interface{}{lp, off, ho.Status, -1, -1, ""}
